@@ -13,7 +13,18 @@ from scriptplan.core.task import Task
 from scriptplan.parser.macro_processor import preprocess_tjp
 
 
+def _day_after(date: Any) -> Any:
+    """date + 1 day; the last day of the calendar ends with the calendar."""
+    from datetime import datetime, timedelta
+
+    try:
+        return date + timedelta(days=1)
+    except OverflowError:
+        return datetime.max.replace(microsecond=0)
+
+
 class TJPTransformer(Transformer[Any, Any]):
+
     """Transform the parse tree into a dictionary structure."""
 
     def start(self, items: list[Any]) -> dict[str, Any]:
@@ -1326,7 +1337,7 @@ class ModelBuilder:
                         # Single day - end is start + 1 day
                         from datetime import timedelta
 
-                        end_date = start_date + timedelta(days=1)
+                        end_date = _day_after(start_date)
 
                     if start_date:
                         interval = TimeInterval(start_date, end_date)
@@ -1347,7 +1358,7 @@ class ModelBuilder:
                     from datetime import timedelta
 
                     if end_date is None or end_date == start_date:
-                        end_date = start_date + timedelta(days=1)
+                        end_date = _day_after(start_date)
 
                     if start_date:
                         interval = TimeInterval(start_date, end_date)
@@ -1573,7 +1584,7 @@ class ModelBuilder:
                         # Single day leave - covers that whole day (same as global vacations)
                         from datetime import timedelta
 
-                        end_date = start_date + timedelta(days=1)
+                        end_date = _day_after(start_date)
 
                     if start_date and end_date:
                         interval = TimeInterval(start_date, end_date)
@@ -1647,7 +1658,7 @@ class ModelBuilder:
                         # Single day vacation - covers that whole day (same as global vacations)
                         from datetime import timedelta
 
-                        end_date = start_date + timedelta(days=1)
+                        end_date = _day_after(start_date)
 
                     if start_date and end_date:
                         interval = TimeInterval(start_date, end_date)
